@@ -28,4 +28,5 @@ EXTRAS = [
     lambda rep, fb, tier: __import__("vf.rules.lints", fromlist=["x"]).rule_ctor_roles(rep, fb),
     lambda rep, fb, tier: __import__("vf.rules.lints", fromlist=["x"]).rule_call_roles(rep, fb),
     lambda rep, fb, tier: __import__("vf.rules.lints2", fromlist=["x"]).rule_rebased_copy(rep, fb),
+    lambda rep, fb, tier: __import__("vf.rules.lints3", fromlist=["x"]).rule_offsets_first(rep, fb),
 ]
